@@ -179,6 +179,23 @@ def work(p):
                 except Exception as e:
                     acc.violation("raised", case, repr(e))
                 acc.case((an, si, ti, free, kind, mag_name))
+        # a jog by a few position tolerances from where the arm stands, start vector DEFAULTED (a "you are already there"
+        # shortcut compares poses with a tolerance of its own): 5 * ptol along the coordinate where the tool is farthest out
+        if 5 * ptol <= 8e-6:
+            ax = int(np.argmax(np.abs(T0[:3, 3])))
+            G = T0.copy()
+            G[ax, 3] += 5 * ptol * (1.0 if T0[ax, 3] >= 0 else -1.0)
+            for check2 in (False, True):
+                case = dict(base, goal="jog_5_ptol", start="current_defaulted", restarts=["on"] if check2 else None)
+                arm = copy.deepcopy(arm0)
+                try:
+                    with armlib.quiet():
+                        arm.FK(th0.copy())
+                    th, ok, _ = solve(arm, G, None, free, check2, 1, [0.5] * (2 * ref0.n))
+                    judge(acc, arm, ref0, case, G, th, ok, free, True, False, ptol, rtol)
+                except Exception as e:
+                    acc.violation("raised", case, repr(e))
+                acc.case((an, si, ti, free, "jog", check2))
         # the same boundary goals through the restart policy: the first attempt (far start) and the restart are limited to
         # their entry test (max_iters=0) and the scripted restart vector is theta0 itself, so a restart call that judges
         # with the wrong tolerance accepts a pose the first call would refuse
